@@ -49,6 +49,10 @@ def run(repo: Repo, rep: Report, tier: str) -> None:
     _c08._r08_2(repo, Only(rep, {"R08.2"}))
     from . import c10 as _c10
     _c10._r10_3_semantic(repo, Only(rep, {"R10.3"}))
+    from ..core.report import Only as _OnlyX
+    from ..core import corpus as _corpusX
+    from . import c19 as _c19x
+    _c19x.run(repo, _OnlyX(rep, {"R19.3"}), tier)
 
 MAIN_DEF_SITES = ("_add_pack_method_definition", "_add_unpack_method_definition", "add_encode_method", "add_decode_method")
 
@@ -380,3 +384,6 @@ LEVEL_TEXT += _ADDENDUM
 _ADD8 = ' Borrowed: R10.3 (strategy levels in the documented order, decided on the evaluated generator).'
 EXPLANATION += _ADD8
 LEVEL_TEXT += _ADD8
+_ADD22 = ' Borrowed: R19.3 (flags, dialect included, are forwarded to nested and Self calls).'
+EXPLANATION += _ADD22
+LEVEL_TEXT += _ADD22
